@@ -36,6 +36,14 @@ APIS = [
     ("parallel_temper", {"target_size": "current", "presliced": True}),
     ("tree.slice", {"reslice": True, "presliced": True}),
     ("get_subtree", {}),
+    # the tree has a past (reconfigured, queried, copied) and the same non-inplace seeded call is made twice on it
+    ("subtree_reconfigure", {"subtree_search": "bfs", "select": "random", "warm": True, "repeat": True}),
+    ("subtree_reconfigure", {"subtree_search": "random", "select": "max", "warm": True, "repeat": True}),
+    ("subtree_reconfigure_forest", {"warm": True, "repeat": True}),
+    ("simulated_anneal", {"warm": True, "repeat": True}),
+    ("parallel_temper", {"warm": True, "repeat": True}),
+    ("tree.slice", {"warm": True, "repeat": True}),
+    ("get_subtree", {"warm": True, "repeat": True}),
 ]
 GENS = ["rand_equation", "tree_equation", "randreg_equation", "perverse_equation", "lattice_equation",
         "make_rand_size_dict_from_inputs", "make_arrays_from_inputs", "rand_tree"]
@@ -75,7 +83,14 @@ def run(run):
         outs = list(ex.map(lambda e: run_env(calls, e), envs))
     cases, descs = [], []
     for i, call in enumerate(calls):
-        obs = [{"env": k + 1, "digest": o[str(i)] if str(i) in o else o[i]} for k, o in enumerate(outs)]
+        obs = []
+        for k, o in enumerate(outs):
+            dg = o[str(i)] if str(i) in o else o[i]
+            if "|" in dg and not dg.startswith("raised:"):
+                d1, d2 = dg.split("|")
+                obs += [{"env": k + 1, "digest": d1}, {"env": 100 + k + 1, "digest": d2}]   # 100+: the repeated call
+            else:
+                obs.append({"env": k + 1, "digest": dg})
         cases.append({"key": i + 1, "obs": obs})
         descs.append(call)
         run.count(len(obs))
@@ -93,7 +108,8 @@ def run(run):
         if v[0] != "ok":
             tag_kw = {f"{k}={val}" for k, val in call.get("kw", {}).items()}
             run.violation(f"{call['api']}({call.get('kw')}, seed={call['seed']}) on {call.get('net')}: {len(set(digs))} different results in "
-                          f"{len(digs)} environments (hash seeds {[e['hashseed'] for e in envs]}): {digs}", call,
+                          f"{len(digs)} observations (fresh interpreters with hash seeds {[e['hashseed'] for e in envs]}"
+                          f"{'; each made the call twice on the same object' if call.get('kw', {}).get('repeat') else ''}): {digs}", call,
                           tags={v[0], "api:" + call["api"]} | tag_kw)
         else:
             run.sample({"call": call, "environments": [e["hashseed"] for e in envs], "digest": digs[0]})
